@@ -64,12 +64,12 @@ pub fn run(ctx: &Ctx) {
         // large keyrings: many public-only entries (> 8 KiB, > 64 KiB) and a long comment block
         let many = |n: usize, rng: &mut Rng| -> String { (0..n).map(|i| format!("[Key]\nName = contact-{}\nPublicKey = {}\n", i, refspec::encode_pk(&refspec::pubkey_of(&rng.arr32())))).collect::<Vec<_>>().join("\n") };
         let big9k = format!("{}\n{}", init0.entry(true), many(110, &mut rng));
-        let big70k = format!("{}\n{}", init0.entry(true), many(ctx.tier.pick(300, 900), &mut rng));
+        let big70k = format!("{}\n{}", init0.entry(true), many(ctx.tier.pick(900, 2500), &mut rng));
         let comments = format!("{}\n{}", init0.entry(true), "# a line of commentary that makes the file longer than one buffer ........................\n".repeat(120));
         let mut states = states;
         states.push(("keyring larger than 8 KiB (110 contacts)", Some(big9k), vec![&init0]));
         states.push(("keyring with ~10 KiB of trailing comments", Some(comments), vec![&init0]));
-        states.push(("keyring larger than 24 KiB (hundreds of contacts)", Some(big70k), vec![&init0]));
+        states.push(("keyring larger than 64 KiB (about a thousand contacts)", Some(big70k), vec![&init0]));
         let (sname, init, init_ids) = &states[h % states.len()];
         let f = wd.file("keyring.txt");
         if let Some(text) = init {
